@@ -711,16 +711,19 @@ fn dir_b(c: &mut Ctx, r: &mut Rng, idx: u64) {
     for pw in [&q.user, &owner.as_bytes().to_vec()] {
         if !matches!(refimpl::decrypt_document(&enc, pw, true, false), Ok((ref dd, _)) if c05::docs_same_mod_length(&orig, dd).is_ok()) { c.oracle_fail("reference-self-roundtrip", "", case.clone()); return; }
     }
-    // the model of lopdf's code on the same input (user password): correspondence with the real decrypt
+    // the model of lopdf's code on the same input: correspondence with the real decrypt (revision 6 within a budget:
+    // the model runs the full Algorithm 2.B in Lean)
+    let full_model_case = c05::r6_model_budget(c, q.r, "b.r6_model_cases");
     let run = |c: &mut Ctx, doc: &Document, pw: &str, label: &str| -> Result<Document, String> {
         let mut dd = doc.clone();
         let res = guard(|| dd.decrypt(pw));
         let pw_b = c05::sanitize(doc, pw).unwrap_or_default();
+        let full_model = full_model_case;
         let tbl = c05::h2b_table(q.r, &d.o, &d.u, &[pw_b.clone()]);
         let req = format!("c5_decdoc {} {} {}", c05::show_doc(doc), hex_tok(&pw_b), tbl);
         match res {
-            Ok(Ok(())) => { c.corr(req, format!("ok {}", c05::show_doc(&dd))); Ok(dd) }
-            Ok(Err(e)) => { let cls = c05::err_class(&e); c.corr(req, format!("err {}", cls)); Err(cls) }
+            Ok(Ok(())) => { if full_model { c.corr(req, format!("ok {}", c05::show_doc(&dd))); } Ok(dd) }
+            Ok(Err(e)) => { let cls = c05::err_class(&e); if full_model { c.corr(req, format!("err {}", cls)); } Err(cls) }
             Err((site, msg)) => { c.oracle_fail(&format!("panic@{}", site), &msg, json!({"label": label})); Err("panic".into()) }
         }
     };
